@@ -15,7 +15,7 @@ from decimal import Decimal
 from lib import heap, monitors
 
 ID = 'C12'
-TECHNIQUE = 'runtime monitor: object-identity disjointness invariants checked immediately after every assignment'
+TECHNIQUE = "runtime monitor: object-identity disjointness invariants checked immediately after every assignment; host container kinds, coverage-guided programs (atheris), the repository's tests"
 RULE = ('programs of 2-10 statements over host-supplied nested lists/dicts/tuple lists and program-built containers: the four assignment forms (name, index, compound name, '
         'compound index, incl. index == len(list) and negative indices) with right-hand sides that are names, sub-paths, literals embedding names, results of '
         'items/enumerate/values/keys/sorted/map/filter/get/reversed (tuples and fresh lists that still contain the original inner objects), host callbacks returning host objects, '
